@@ -1,6 +1,7 @@
 """Scheduler family (C01-C07): Sched.tla / SchedPreds.tla / SchedTrace.tla."""
 import concurrent.futures
 import fcntl
+import glob
 import hashlib
 import json
 import os
@@ -41,7 +42,7 @@ def validate_parallel(ctx, path, label, chunks=8, timeout=1800, classify=None):
 
 def _key(binary, seed, tier):
     h = hashlib.sha256()
-    for p in [binary] + [os.path.join(vlib.SPECS, n) for n in DEPS + [TRACE, CFG, "Sched.tla"] + sorted(
+    for p in [binary] + [os.path.join(vlib.SPECS, n) for n in DEPS + [TRACE, CFG, "Sched.tla", "SchedSim.tla", "Sim_Sched.cfg"] + sorted(
             x for x in os.listdir(vlib.SPECS) if x.startswith("MC_Sched_"))] + [__file__, vlib.__file__]:
         h.update(open(p, "rb").read())
     h.update(("%s|%s|%s" % (seed, tier, vlib.REPO)).encode())
@@ -54,10 +55,10 @@ def _run_all(ctx0, binary):
     ctx = vlib.Ctx("SCHED", ctx0.tier, ctx0.seed)
     try:
         # design model: the same predicates are invariants of Sched.tla
-        for cfg in (["MC_Sched_core.cfg", "MC_Sched_gc.cfg", "MC_Sched_drain.cfg"] if ctx.quick()
-                    else ["MC_Sched_core.cfg", "MC_Sched_gc.cfg", "MC_Sched_drain.cfg", "MC_Sched_dedup.cfg"]):
+        for cfg in (["MC_Sched_core.cfg", "MC_Sched_gc.cfg", "MC_Sched_drain.cfg", "MC_Sched_live.cfg"] if ctx.quick()
+                    else ["MC_Sched_core.cfg", "MC_Sched_gc.cfg", "MC_Sched_drain.cfg", "MC_Sched_live.cfg", "MC_Sched_dedup.cfg"]):
             vlib.design_check(ctx, "Sched.tla", cfg, DEPS, timeout=3600, workers=4, heap="6g")
-        n = 60 if ctx.quick() else 600
+        n = 60 if ctx.quick() else 300
         steps = 70 if ctx.quick() else 90
         out = ctx.sub("rand")
         rc, o = vlib.run_driver(binary, "TestRandom", out, ctx.seed, env={"VERIF_N": n, "VERIF_STEPS": steps}, timeout=1500)
@@ -77,10 +78,25 @@ def _run_all(ctx0, binary):
             raise vlib.Infra("sched scenario driver failed:\n" + o[-3000:])
         validate_parallel(ctx, out2 + "/trace.ndjson", "scenarios", chunks=3, classify=everything)
         out3 = ctx.sub("fair")
-        rc, o = vlib.run_driver(binary, "TestFairness", out3, ctx.seed, env={"VERIF_N": 30 if ctx.quick() else 400}, timeout=1500)
+        rc, o = vlib.run_driver(binary, "TestFairness", out3, ctx.seed, env={"VERIF_N": 30 if ctx.quick() else 200}, timeout=1500)
         if rc != 0:
             raise vlib.Infra("sched fairness driver failed:\n" + o[-3000:])
         validate_parallel(ctx, out3 + "/trace.ndjson", "fair", chunks=4 if ctx.quick() else 12, classify=everything)
+        # spec -> code: behaviours of the design model replayed on the real queue
+        sim = ctx.sub("sim")
+        vlib.copy_specs(sim, DEPS + ["Sched.tla", "SchedSim.tla", "Sim_Sched.cfg"])
+        nbeh = 40 if ctx.quick() else 300
+        r = vlib.tlc_run(sim, "SchedSim.tla", "Sim_Sched.cfg", workers=1, timeout=1800, heap="2g",
+                         simulate="num=%d" % nbeh, depth=41, seed=ctx.seed)
+        behs = glob.glob(os.path.join(sim, "beh_*.ndjson"))
+        if not behs:
+            raise vlib.Infra("TLC -simulate of SchedSim produced no behaviours:\n" + r.output[-2000:])
+        out4 = ctx.sub("replay")
+        rc, o = vlib.run_driver(binary, "TestReplayDesign", out4, ctx.seed, env={"VERIF_BEH": sim}, timeout=1500)
+        if rc != 0:
+            raise vlib.Infra("sched design replay driver failed:\n" + o[-3000:])
+        validate_parallel(ctx, out4 + "/trace.ndjson", "designreplay", chunks=4 if ctx.quick() else 12, classify=everything)
+        ctx.cov["behaviours_replayed"] = len(behs)
         ctx.cov["samples"] = samples
         return {"violations": ctx.violations, "cov": ctx.cov}
     finally:
